@@ -78,7 +78,23 @@ def planted_table(gene, planted, depth, rng=None, noise=0.0, extra_noise=0):
     return {int(p): {o: int(c) for o, c in d.items()} for p, d in table.items()}
 
 
-def make_coverage(gene, table, profile=None, phases=None):
+def realigned_table(gene, table, k):
+    """Per-indel (not supporting, supporting) counts as the realigner would deliver them, at k times the
+    pile-up depth (the realigner sees its own set of reads): the fraction of supporting reads is unchanged."""
+    out = {}
+    for (pos, op) in gene.mutations:
+        if op[:3] not in ("ins", "del"):
+            continue
+        d = table.get(pos) or {}
+        on = int(d.get(op, 0))
+        depth = sum(int(c) for o, c in d.items() if not o.startswith("ins"))
+        if on <= 0 or depth < on:
+            continue
+        out[pos, op] = [(depth - on) * k, on * k]
+    return out
+
+
+def make_coverage(gene, table, profile=None, phases=None, indels=None):
     from aldy.coverage import Coverage
     from aldy.profile import Profile
     from aldy.sam import Sample
@@ -88,7 +104,7 @@ def make_coverage(gene, table, profile=None, phases=None):
     for pos, d in table.items():
         for op, c in d.items():
             cov[int(pos)][op] = [(60, 60)] * int(c)
-    c = Coverage(gene, profile, None, cov, None, {})
+    c = Coverage(gene, profile, None, cov, dict(indels) if indels else None, {})
     if phases is not None:
         c.sam = Sample.__new__(Sample)
         c.sam.phases = {r: {int(k): v for k, v in ph.items()} for r, ph in phases.items()}
